@@ -323,6 +323,9 @@ theorem C03_expr_at_version_entry (C : Ctx) (r : Req) (e v : Str) (post : List S
 example : GoodOrd (fun a b => (Str.toNat a : Int) - Str.toNat b) :=
   ⟨fun a => by simp, fun a b h => by omega, fun a b c h1 h2 => by omega⟩
 
+/-- ... and so is the dotted-decimal order the correspondence runs and the examples use -/
+example : GoodOrd exCtx.ord.cmp := simpleCmp_good
+
 /-- non-vacuity: `p >= 2.0` on the example database (flavor Linux) is answered by `versionExpr`
 with 2.0 from stack 1; `3.0` exists for the other flavor only -/
 example : lookupEntry exCtx (exReq (some [62, 61, 32, 50, 46, 48]) 1) kVersionExpr [sCurrent]
